@@ -102,13 +102,16 @@ func (u *upstream) Serve() {
 	}()
 	wg.Wait()
 
-	// stop all clients
+	// stop all clients. The lock must not be held while waiting for them: a
+	// client which is redirecting a request may be about to take it in
+	// createClient, and would never finish. No client can be added after the
+	// snapshot, createClient tests quit under the lock.
 	u.clientsMu.Lock()
 	clients := u.loadClients()
+	u.clientsMu.Unlock()
 	for _, c := range clients {
 		c.Stop()
 	}
-	u.clientsMu.Unlock()
 	close(u.done)
 }
 
